@@ -1,3 +1,4 @@
+import CKT.Props.C08Spec
 import CKT.Props.C08
 /-!
 # C08, second sentence — an unrestricted search always reports the minimum, and the returned overhead does not depend on the seed
